@@ -20,11 +20,14 @@ import (
 	"fmt"
 	"time"
 
+	"github.com/olric-data/olric/internal/cluster/partitions"
+	"github.com/olric-data/olric/internal/discovery"
 	"github.com/olric-data/olric/internal/protocol"
 	"github.com/olric-data/olric/internal/resp"
 	"github.com/olric-data/olric/internal/util"
 	"github.com/olric-data/olric/internal/verifhook"
 	"github.com/olric-data/olric/pkg/storage"
+	"github.com/redis/go-redis/v9"
 )
 
 func (dm *DMap) loadCurrentAtomicInt(e *env) (int, int64, error) {
@@ -46,7 +49,38 @@ func (dm *DMap) loadCurrentAtomicInt(e *env) (int, int64, error) {
 	return int(nr), entry.TTL(), nil
 }
 
+// remoteOwner returns the primary owner of the key and whether it is another
+// member. The read-modify-write cycle of the atomic operations is serialized
+// by a lock that only exists on the partition owner, so a member that does not
+// own the key has to forward the operation instead of running it locally.
+func (dm *DMap) remoteOwner(key string) (discovery.Member, bool) {
+	hkey := partitions.HKey(dm.name, key)
+	member := dm.s.primary.PartitionByHKey(hkey).Owner()
+	return member, !member.CompareByName(dm.s.rt.This())
+}
+
 func (dm *DMap) atomicIncrDecr(cmd string, e *env, delta int) (int, error) {
+	if owner, remote := dm.remoteOwner(e.key); remote {
+		var rcmd *redis.IntCmd
+		switch cmd {
+		case protocol.DMap.Incr:
+			rcmd = protocol.NewIncr(dm.name, e.key, delta).Command(dm.s.ctx)
+		case protocol.DMap.Decr:
+			rcmd = protocol.NewDecr(dm.name, e.key, delta).Command(dm.s.ctx)
+		default:
+			return 0, fmt.Errorf("invalid operation")
+		}
+		rc := dm.s.client.Get(owner.String())
+		if err := rc.Process(e.ctx, rcmd); err != nil {
+			return 0, protocol.ConvertError(err)
+		}
+		res, err := rcmd.Result()
+		if err != nil {
+			return 0, protocol.ConvertError(err)
+		}
+		return int(res), nil
+	}
+
 	atomicKey := e.dmap + e.key
 	dm.s.locker.Lock(atomicKey)
 	defer func() {
@@ -114,6 +148,26 @@ func (dm *DMap) Decr(ctx context.Context, key string, delta int) (int, error) {
 }
 
 func (dm *DMap) getPut(e *env) (storage.Entry, error) {
+	if owner, remote := dm.remoteOwner(e.key); remote {
+		rcmd := protocol.NewGetPut(dm.name, e.key, e.value).SetRaw().Command(dm.s.ctx)
+		rc := dm.s.client.Get(owner.String())
+		err := rc.Process(e.ctx, rcmd)
+		if errors.Is(err, redis.Nil) {
+			// There was no previous value.
+			return nil, nil
+		}
+		if err != nil {
+			return nil, protocol.ConvertError(err)
+		}
+		raw, err := rcmd.Bytes()
+		if err != nil {
+			return nil, protocol.ConvertError(err)
+		}
+		old := dm.engine.NewEntry()
+		old.Decode(raw)
+		return old, nil
+	}
+
 	atomicKey := e.dmap + e.key
 	dm.s.locker.Lock(atomicKey)
 	defer func() {
@@ -176,6 +230,19 @@ func (dm *DMap) GetPut(ctx context.Context, key string, value interface{}) (stor
 }
 
 func (dm *DMap) atomicIncrByFloat(e *env, delta float64) (float64, error) {
+	if owner, remote := dm.remoteOwner(e.key); remote {
+		rcmd := protocol.NewIncrByFloat(dm.name, e.key, delta).Command(dm.s.ctx)
+		rc := dm.s.client.Get(owner.String())
+		if err := rc.Process(e.ctx, rcmd); err != nil {
+			return 0, protocol.ConvertError(err)
+		}
+		res, err := rcmd.Result()
+		if err != nil {
+			return 0, protocol.ConvertError(err)
+		}
+		return res, nil
+	}
+
 	atomicKey := e.dmap + e.key
 	dm.s.locker.Lock(atomicKey)
 	defer func() {
